@@ -64,7 +64,7 @@ theorem compRules_err (lib : RRuleLib) (hl : LibVE lib) (l : List (List Char)) (
   · cases h
   · split at h
     · rename_i e' he; cases h; exact hl _ _ he
-    · split at h <;> cases h; rfl
+    · cases h
 
 
 theorem beginComp_err (st : PState) (v : List Char) (e : PyErr) (h : beginComp st v = .error e) : e = .ValueError := by
